@@ -1,33 +1,11 @@
 (* MpLoadStream.v — the typed MsgPack load over a STREAM: the request programs of the generic serialization layer
-   (MpLoadModel.v) for shapes without byte containers lie in the fragment of the history language that
+   (MpLoadModel.v) for EVERY shape lie in the fragment of the history language that
    MpScopeClient.v re-expresses as a client of the reader interface; hence T_C01_mp_load_save transports to the
    MsgPack stream reader over the chunked reader (through the mpstream family's adaptive theorem). *)
 From BS Require Import Base MpSpec MpModel MpLemmas MpReader MpTyped MpSaveModel MpSave
-  MpScopeSpec MpScopeModel MpScopeLemmas MpScopeTyped MpScopeProofs MpScopeRefine MpLoadModel MpLoadProofs MpScopeClient.
+  MpScopeSpec MpScopeModel MpScopeLemmas MpScopeTyped MpScopeProofs MpScopeRefine MpLoadModel MpLoadBytes MpLoadProofs MpScopeClient.
 From BS Require StreamIStream StreamSpec StreamModel StreamBsrProofs MpStreamModel MpStreamProofs.
 Local Open Scope N_scope.
-
-(* no byte container (std::vector<uint8_t>-like target loaded through the binary scope) at any depth *)
-Fixpoint bytes_free (s : shape) : bool :=
-  match s with
-  | SBytes => false
-  | SVec e | SArr _ e | SOpt e | SMMap _ e | SMap _ _ e => bytes_free e
-  | SClass ms => (fix go (ms : list (list N * shape)) : bool := match ms with [] => true | (_, s') :: t => bytes_free s' && go t end) ms
-  | STuple ss => (fix go (ss : list shape) : bool := match ss with [] => true | s' :: t => bytes_free s' && go t end) ss
-  | _ => true
-  end.
-
-Lemma bytes_free_class ms : bytes_free (SClass ms) = true -> Forall (fun m => bytes_free (snd m) = true) ms.
-Proof.
-  induction ms as [|[name s'] t IH]; intros H; [constructor|].
-  cbn [bytes_free] in H. apply andb_true_iff in H. destruct H as [H1 H2]. constructor; [exact H1 | exact (IH H2)].
-Qed.
-
-Lemma bytes_free_tuple ss : bytes_free (STuple ss) = true -> Forall (fun s' => bytes_free s' = true) ss.
-Proof.
-  induction ss as [|s' t IH]; intros H; [constructor|].
-  cbn [bytes_free] in H. apply andb_true_iff in H. destruct H as [H1 H2]. constructor; [exact H1 | exact (IH H2)].
-Qed.
 
 (* ---------- the programs lie in the fragment ---------- *)
 Lemma frag_app_a l1 l2 : frag_areqs (mk_areqs (l1 ++ l2)) = frag_areqs (mk_areqs l1) && frag_areqs (mk_areqs l2).
@@ -121,22 +99,37 @@ Section ProgFrag.
     cbn [frag_reqs frag_req]. apply Hm.
   Qed.
 
-  Lemma progs_in_fragment : forall s, bytes_free s = true -> prog_frag s.
+  Lemma progs_in_fragment : forall s, prog_frag s.
   Proof.
-    apply (shape_ind' (fun s => bytes_free s = true -> prog_frag s)).
+    apply (shape_ind' prog_frag).
     - (* scalars *)
-      intros s Hs _. destruct s; try contradiction; (split; [|split]); intros; reflexivity.
-    - (* SBytes *) intros H. discriminate H.
+      intros s Hs. destruct s; try contradiction; (split; [|split]); intros; reflexivity.
+    - (* SBytes *)
+      assert (HU : forall v, frag_areqs (arr_prog u8_prog (TInt IU8 0) [] v) = true) by (intros v; apply frag_arr_prog; intros; reflexivity).
+      split; [|split].
+      + intros i v. change (elem_prog o SBytes i v) with
+          (match v with MBin bs => [ABin (length bs)] | _ => [ABin 0; AArr (arr_prog u8_prog (TInt IU8 0) [] v)] end).
+        destruct v; try reflexivity; cbn [mk_areqs frag_areqs frag_areq]; rewrite HU; reflexivity.
+      + intros i q ov. change (member_prog o SBytes i q ov) with
+          (match ov with
+           | Some (MBin bs) => [RBin q (length bs)]
+           | Some v => [RBin q 0; RArr q (arr_prog u8_prog (TInt IU8 0) [] v)]
+           | None => [RBin q 0; RArr q ANil]
+           end).
+        destruct ov as [v|]; [|reflexivity]. destruct v; try reflexivity; cbn [mk_reqs frag_reqs frag_req]; rewrite HU; reflexivity.
+      + intros i v. change (vact_prog o SBytes i v) with
+          (match v with MBin bs => VBin (length bs) | _ => VBinArr 0 (arr_prog u8_prog (TInt IU8 0) [] v) end).
+        destruct v; try reflexivity; cbn [frag_vact]; apply HU.
     - (* SVec *)
-      intros e IH Hb. destruct (IH Hb) as [He _]. split; [|split].
+      intros e IH. destruct IH as [He _]. split; [|split].
       + intros i v. rewrite elem_prog_vec. cbn [mk_areqs frag_areqs frag_areq]. rewrite andb_true_r. apply frag_arr_prog. exact He.
       + intros i q ov. rewrite member_prog_vec. cbn [mk_reqs frag_reqs frag_req]. rewrite andb_true_r.
         destruct ov; [apply frag_arr_prog; exact He | reflexivity].
       + intros i v. rewrite vact_prog_vec. cbn [frag_vact]. apply frag_arr_prog. exact He.
     - (* SClass *)
-      intros ms IH Hb.
+      intros ms IH.
       assert (HM : Forall (fun m => forall i q ov, frag_reqs (mk_reqs (member_prog o (snd m) i q ov)) = true) ms).
-      { pose proof (bytes_free_class ms Hb) as HB. rewrite Forall_forall in *. intros m Hin. exact (proj1 (proj2 (IH m Hin (HB m Hin)))). }
+      { rewrite Forall_forall in *. intros m Hin. exact (proj1 (proj2 (IH m Hin))). }
       split; [|split].
       + intros i v. rewrite elem_prog_class. cbn [mk_areqs frag_areqs frag_areq]. rewrite andb_true_r.
         destruct v; try reflexivity. apply frag_members. exact HM.
@@ -144,7 +137,7 @@ Section ProgFrag.
         destruct ov as [[]|]; try reflexivity. apply frag_members. exact HM.
       + intros i v. rewrite vact_prog_class. cbn [frag_vact]. destruct v; try reflexivity. apply frag_members. exact HM.
     - (* SMap *)
-      intros m ks e IH Hb. destruct (IH Hb) as [_ [_ Hv]].
+      intros m ks e IH. destruct IH as [_ [_ Hv]].
       assert (HE : forall i kvs, frag_reqs (mk_reqs [REach (mk_vacts (map_acts o (map_only m) ks (default_of e) (vact_prog o e) (map_m0 m i) kvs))]) = true).
       { intros i kvs. cbn [mk_reqs frag_reqs frag_req]. rewrite andb_true_r. apply frag_map_acts. exact Hv. }
       split; [|split].
@@ -154,22 +147,22 @@ Section ProgFrag.
         destruct ov as [[]|]; try reflexivity. apply HE.
       + intros i v. rewrite vact_prog_map. cbn [frag_vact]. destruct v; try reflexivity. apply HE.
     - (* SArr *)
-      intros n e IH Hb. destruct (IH Hb) as [He _]. split; [|split].
+      intros n e IH. destruct IH as [He _]. split; [|split].
       + intros i v. rewrite elem_prog_arr. cbn [mk_areqs frag_areqs frag_areq]. rewrite andb_true_r. apply frag_arr_prog. exact He.
       + intros i q ov. rewrite member_prog_arr. cbn [mk_reqs frag_reqs frag_req]. rewrite andb_true_r.
         destruct ov; [apply frag_arr_prog; exact He | reflexivity].
       + intros i v. rewrite vact_prog_arr. cbn [frag_vact]. apply frag_arr_prog. exact He.
     - (* SVecBool *)
-      intros _. split; [|split].
+      split; [|split].
       + intros i v. rewrite elem_prog_vb. cbn [mk_areqs frag_areqs frag_areq]. rewrite andb_true_r. apply frag_arr_prog. intros; reflexivity.
       + intros i q ov. rewrite member_prog_vb. cbn [mk_reqs frag_reqs frag_req]. rewrite andb_true_r.
         destruct ov; [apply frag_arr_prog; intros; reflexivity | reflexivity].
       + intros i v. change (vact_prog o SVecBool i v) with (VArr (arr_prog bool_prog (TBool false) [] v)). cbn [frag_vact].
         apply frag_arr_prog. intros; reflexivity.
     - (* STuple *)
-      intros ss IH Hb.
+      intros ss IH.
       assert (HC : Forall (fun s => forall i v, frag_areqs (mk_areqs (elem_prog o s i v)) = true) ss).
-      { pose proof (bytes_free_tuple ss Hb) as HB. rewrite Forall_forall in *. intros s' Hin. exact (proj1 (IH s' Hin (HB s' Hin))). }
+      { rewrite Forall_forall in *. intros s' Hin. exact (proj1 (IH s' Hin)). }
       split; [|split].
       + intros i v. rewrite elem_prog_tuple. cbn [mk_areqs frag_areqs frag_areq]. rewrite andb_true_r.
         destruct v; try reflexivity. apply frag_comps. exact HC.
@@ -177,18 +170,18 @@ Section ProgFrag.
         destruct ov as [[]|]; try reflexivity. apply frag_comps. exact HC.
       + intros i v. rewrite vact_prog_tuple. cbn [frag_vact]. destruct v; try reflexivity. apply frag_comps. exact HC.
     - (* SOpt *)
-      intros e IH Hb. destruct (IH Hb) as [He [Hm Hv]]. split; [|split].
+      intros e IH. destruct IH as [He [Hm Hv]]. split; [|split].
       + intros i v. rewrite elem_prog_opt. apply He.
       + intros i q ov. rewrite member_prog_opt. apply Hm.
       + intros i v. rewrite vact_prog_opt. apply Hv.
     - (* SMMap *)
-      intros ks e IH Hb. pose proof (frag_pair_prog ks e (IH Hb)) as HP. split; [|split].
+      intros ks e IH. pose proof (frag_pair_prog ks e IH) as HP. split; [|split].
       + intros i v. rewrite elem_prog_mm. cbn [mk_areqs frag_areqs frag_areq]. rewrite andb_true_r. apply frag_arr_prog. exact HP.
       + intros i q ov. rewrite member_prog_mm. cbn [mk_reqs frag_reqs frag_req]. rewrite andb_true_r.
         destruct ov; [apply frag_arr_prog; exact HP | reflexivity].
       + intros i v. rewrite vact_prog_mm. cbn [frag_vact]. apply frag_arr_prog. exact HP.
     - (* SSet *)
-      intros multi ks _. split; [|split].
+      intros multi ks. split; [|split].
       + intros i v. rewrite elem_prog_set. cbn [mk_areqs frag_areqs frag_areq]. rewrite andb_true_r. apply frag_arr_prog. intros; reflexivity.
       + intros i q ov. rewrite member_prog_set. cbn [mk_reqs frag_reqs frag_req]. rewrite andb_true_r.
         destruct ov; [apply frag_arr_prog; intros; reflexivity | reflexivity].
@@ -197,27 +190,24 @@ Section ProgFrag.
   Qed.
 
   (* the root programs *)
-  Lemma class_prog_frag ms i kvs : bytes_free (SClass ms) = true -> frag_reqs (class_prog o ms i kvs) = true.
+  Lemma class_prog_frag ms i kvs : frag_reqs (class_prog o ms i kvs) = true.
   Proof.
-    intros Hb. unfold class_prog. apply frag_members.
-    pose proof (bytes_free_class ms Hb) as HB. rewrite Forall_forall in *. intros m Hin.
-    exact (proj1 (proj2 (progs_in_fragment (snd m) (HB m Hin)))).
+    unfold class_prog. apply frag_members. rewrite Forall_forall. intros m _.
+    exact (proj1 (proj2 (progs_in_fragment (snd m)))).
   Qed.
 
-  Lemma map_prog_frag m ks e i kvs : bytes_free e = true -> frag_reqs (map_prog o m ks e i kvs) = true.
+  Lemma map_prog_frag m ks e i kvs : frag_reqs (map_prog o m ks e i kvs) = true.
   Proof.
-    intros Hb. unfold map_prog. cbn [mk_reqs frag_reqs frag_req]. rewrite andb_true_r. apply frag_map_acts.
-    exact (proj2 (proj2 (progs_in_fragment e Hb))).
+    unfold map_prog. cbn [mk_reqs frag_reqs frag_req]. rewrite andb_true_r. apply frag_map_acts.
+    exact (proj2 (proj2 (progs_in_fragment e))).
   Qed.
 
-  Lemma vec_prog_frag e i vs : bytes_free e = true -> frag_areqs (vec_prog o e i vs) = true.
-  Proof. intros Hb. unfold vec_prog. apply frag_vec_body. exact (proj1 (progs_in_fragment e Hb)). Qed.
+  Lemma vec_prog_frag e i vs : frag_areqs (vec_prog o e i vs) = true.
+  Proof. unfold vec_prog. apply frag_vec_body. exact (proj1 (progs_in_fragment e)). Qed.
 
-  Lemma tuple_prog_frag ss i vs : bytes_free (STuple ss) = true -> frag_areqs (tuple_prog o ss i vs) = true.
+  Lemma tuple_prog_frag ss i vs : frag_areqs (tuple_prog o ss i vs) = true.
   Proof.
-    intros Hb. unfold tuple_prog. apply frag_comps.
-    pose proof (bytes_free_tuple ss Hb) as HB. rewrite Forall_forall in *. intros s' Hin.
-    exact (proj1 (progs_in_fragment s' (HB s' Hin))).
+    unfold tuple_prog. apply frag_comps. rewrite Forall_forall. intros s' _. exact (proj1 (progs_in_fragment s')).
   Qed.
 End ProgFrag.
 
@@ -264,57 +254,110 @@ Section OverStream.
     reflexivity.
   Qed.
 
-  (* save, then load from a stream: a class at the root *)
-  Theorem load_save_class_stream kvs ms i b fuel :
-    StreamBsrProofs.fits_streamoff b -> SP.bytes_ok b -> (length b < fuel)%nat ->
-    bytes_free (SClass ms) = true ->
+  (* save, then load from a stream: a class at the root.  The one length bound: fits_streamoff b (the saved bytes are
+     fewer than 2^63: std::streamoff); fuel is the model's recursion bound, anything above the number of bytes *)
+  Theorem load_save_class_stream kvs ms i b :
+    StreamBsrProofs.fits_streamoff b ->
     has_shape (TObj kvs) (SClass ms) = true -> clean_maps (SClass ms) = true -> wf_tv (TObj kvs) -> doc_ok (abs (TObj kvs)) = true ->
-    save (TObj kvs) = Some b ->
+    wf_bytes (TObj kvs) = true -> save (TObj kvs) = Some b ->
     exists toks, load_tr narrow widen o (SClass ms) i (abs (TObj kvs)) = (toks, LOk (TObj kvs)) /\
+      forall fuel, (length b < fuel)%nat ->
       SM.mps_client_bsr narrow widen K (StreamIStream.stream_of b true) fuel o (scope_client (S (length b)) (class_prog o ms i (map absp kvs))) =
         StreamModel.Ok (fst (SM.str_client_run narrow widen b o (scope_client (S (length b)) (class_prog o ms i (map absp kvs)))),
                         Some (Some (toks, N.of_nat (length b), false))).
   Proof.
-    intros Hf Hb Hfuel Hbf Hs Hc Hw Hd Hsv.
-    destruct (load_save_class_on_model narrow widen o kvs ms i b Hs Hc Hw Hd Hsv Hb) as [toks [E [Hrun _]]].
-    exists toks. split; [exact E|].
-    rewrite (obj_run_over_stream b fuel _ toks [] Hf Hb Hfuel (class_prog_frag o ms i (map absp kvs) Hbf) Hrun).
+    intros Hf Hs Hc Hw Hd Hwb Hsv. pose proof (save_bytes _ b Hw Hwb Hsv) as Hb.
+    destruct (load_save_class_on_model narrow widen o kvs ms i b Hs Hc Hw Hd Hwb Hsv) as [toks [E [Hrun _]]].
+    exists toks. split; [exact E|]. intros fuel Hfuel.
+    rewrite (obj_run_over_stream b fuel _ toks [] Hf Hb Hfuel (class_prog_frag o ms i (map absp kvs)) Hrun).
     cbn [length]. rewrite Nat.sub_0_r. reflexivity.
   Qed.
 
   (* ... a std::map at the root *)
-  Theorem load_save_map_stream kvs ks e i b fuel :
-    StreamBsrProofs.fits_streamoff b -> SP.bytes_ok b -> (length b < fuel)%nat ->
-    bytes_free e = true ->
+  Theorem load_save_map_stream kvs ks e i b :
+    StreamBsrProofs.fits_streamoff b ->
     has_shape (TObj kvs) (SMap MClean ks e) = true -> clean_maps e = true -> wf_tv (TObj kvs) -> doc_ok (abs (TObj kvs)) = true ->
-    save (TObj kvs) = Some b ->
+    wf_bytes (TObj kvs) = true -> save (TObj kvs) = Some b ->
     exists toks, load_tr narrow widen o (SMap MClean ks e) i (abs (TObj kvs)) = (toks, LOk (TObj kvs)) /\
+      forall fuel, (length b < fuel)%nat ->
       SM.mps_client_bsr narrow widen K (StreamIStream.stream_of b true) fuel o (scope_client (S (length b)) (map_prog o MClean ks e i (map absp kvs))) =
         StreamModel.Ok (fst (SM.str_client_run narrow widen b o (scope_client (S (length b)) (map_prog o MClean ks e i (map absp kvs)))),
                         Some (Some (toks, N.of_nat (length b), false))).
   Proof.
-    intros Hf Hb Hfuel Hbf Hs Hc Hw Hd Hsv.
-    destruct (load_save_map_on_model narrow widen o kvs ks e i b Hs Hc Hw Hd Hsv Hb) as [toks [E [Hrun _]]].
-    exists toks. split; [exact E|].
-    rewrite (obj_run_over_stream b fuel _ toks [] Hf Hb Hfuel (map_prog_frag o MClean ks e i (map absp kvs) Hbf) Hrun).
+    intros Hf Hs Hc Hw Hd Hwb Hsv. pose proof (save_bytes _ b Hw Hwb Hsv) as Hb.
+    destruct (load_save_map_on_model narrow widen o kvs ks e i b Hs Hc Hw Hd Hwb Hsv) as [toks [E [Hrun _]]].
+    exists toks. split; [exact E|]. intros fuel Hfuel.
+    rewrite (obj_run_over_stream b fuel _ toks [] Hf Hb Hfuel (map_prog_frag o MClean ks e i (map absp kvs)) Hrun).
     cbn [length]. rewrite Nat.sub_0_r. reflexivity.
   Qed.
 
   (* ... a sequence container at the root *)
-  Theorem load_save_vec_stream l e i b fuel :
-    StreamBsrProofs.fits_streamoff b -> SP.bytes_ok b -> (length b < fuel)%nat ->
-    bytes_free e = true ->
+  Theorem load_save_vec_stream l e i b :
+    StreamBsrProofs.fits_streamoff b ->
     has_shape (TArr l) (SVec e) = true -> clean_maps e = true -> wf_tv (TArr l) -> doc_ok (abs (TArr l)) = true ->
-    save (TArr l) = Some b ->
+    wf_bytes (TArr l) = true -> save (TArr l) = Some b ->
     exists toks, load_tr narrow widen o (SVec e) i (abs (TArr l)) = (toks, LOk (TArr l)) /\
+      forall fuel, (length b < fuel)%nat ->
       SM.mps_client_bsr narrow widen K (StreamIStream.stream_of b true) fuel o (scope_client_arr (S (length b)) (vec_prog o e i (map abs l))) =
         StreamModel.Ok (fst (SM.str_client_run narrow widen b o (scope_client_arr (S (length b)) (vec_prog o e i (map abs l)))),
                         Some (Some (toks, N.of_nat (length b), false))).
   Proof.
-    intros Hf Hb Hfuel Hbf Hs Hc Hw Hd Hsv.
-    destruct (load_save_vec_on_model narrow widen o l e i b Hs Hc Hw Hd Hsv Hb) as [toks [E [Hrun _]]].
-    exists toks. split; [exact E|].
-    rewrite (arr_run_over_stream b fuel _ toks [] Hf Hb Hfuel (vec_prog_frag o e i (map abs l) Hbf) Hrun).
+    intros Hf Hs Hc Hw Hd Hwb Hsv. pose proof (save_bytes _ b Hw Hwb Hsv) as Hb.
+    destruct (load_save_vec_on_model narrow widen o l e i b Hs Hc Hw Hd Hwb Hsv) as [toks [E [Hrun _]]].
+    exists toks. split; [exact E|]. intros fuel Hfuel.
+    rewrite (arr_run_over_stream b fuel _ toks [] Hf Hb Hfuel (vec_prog_frag o e i (map abs l)) Hrun).
+    cbn [length]. rewrite Nat.sub_0_r. reflexivity.
+  Qed.
+  (* ... ANY array-rooted target: sequence container, fixed-size array, tuple, vector<bool> at the root *)
+  Definition arr_rooted (s : shape) : bool := match s with SVec _ | SArr _ _ | STuple _ | SVecBool => true | _ => false end.
+  Definition root_arr_prog (s : shape) (i : tv) (vs : list mpv) : areqs :=
+    match s with
+    | SVec e | SArr _ e => vec_prog o e i vs
+    | STuple ss => tuple_prog o ss i vs
+    | SVecBool => mk_areqs (vec_body bool_prog (TBool false) [] vs)
+    | _ => ANil
+    end.
+
+  Lemma root_arr_on_model s data vs rest i toks r :
+    bytes data -> decode data = Some (MArr vs, rest) -> doc_ok (MArr vs) = true -> arr_rooted s = true ->
+    load_tr narrow widen o s i (MArr vs) = (toks, r) -> no_err r ->
+    run_arr_root narrow widen o data (root_arr_prog s i vs) = Done toks rest false.
+  Proof.
+    intros Hb Hd Hok Ha H Hn. destruct s; try discriminate Ha; cbn [root_arr_prog].
+    - exact (proj1 (load_vec_on_model narrow widen o data vs rest s i toks r Hb Hd Hok H Hn)).
+    - exact (proj1 (load_fixed_on_model narrow widen o data vs rest n s i toks r Hb Hd Hok H Hn)).
+    - exact (proj1 (load_vb_on_model narrow widen o data vs rest i toks r Hb Hd Hok H Hn)).
+    - exact (proj1 (load_tuple_on_model narrow widen o data vs rest ss i toks r Hb Hd Hok H Hn)).
+  Qed.
+
+  Lemma root_arr_prog_frag s i vs : frag_areqs (root_arr_prog s i vs) = true.
+  Proof.
+    destruct s; try reflexivity; cbn [root_arr_prog].
+    - apply vec_prog_frag.
+    - apply vec_prog_frag.
+    - apply frag_vec_body. intros; reflexivity.
+    - apply tuple_prog_frag.
+  Qed.
+
+  Theorem load_save_array_stream l s i b :
+    StreamBsrProofs.fits_streamoff b ->
+    arr_rooted s = true ->
+    has_shape (TArr l) s = true -> clean_maps s = true -> wf_tv (TArr l) -> doc_ok (abs (TArr l)) = true ->
+    wf_bytes (TArr l) = true -> save (TArr l) = Some b ->
+    exists toks, load_tr narrow widen o s i (abs (TArr l)) = (toks, LOk (TArr l)) /\
+      forall fuel, (length b < fuel)%nat ->
+      SM.mps_client_bsr narrow widen K (StreamIStream.stream_of b true) fuel o (scope_client_arr (S (length b)) (root_arr_prog s i (map abs l))) =
+        StreamModel.Ok (fst (SM.str_client_run narrow widen b o (scope_client_arr (S (length b)) (root_arr_prog s i (map abs l)))),
+                        Some (Some (toks, N.of_nat (length b), false))).
+  Proof.
+    intros Hf Ha Hs Hc Hw Hd Hwb Hsv. pose proof (save_bytes _ b Hw Hwb Hsv) as Hb.
+    destruct (load_save_spec narrow widen o _ _ i Hs Hc Hw Hd) as [toks [r [E Ho]]].
+    assert (Hno : not_opt s) by (destruct s; try discriminate Ha; exact I).
+    rewrite (out_not_opt s _ _ Hno Hs Ho) in E.
+    exists toks. split; [exact E|]. intros fuel Hfuel.
+    change (abs (TArr l)) with (MArr (map abs l)) in *.
+    pose proof (root_arr_on_model s b (map abs l) [] i toks _ Hb (save_decodes _ b Hw Hsv) Hd Ha E I) as Hrun.
+    rewrite (arr_run_over_stream b fuel _ toks [] Hf Hb Hfuel (root_arr_prog_frag s i (map abs l)) Hrun).
     cbn [length]. rewrite Nat.sub_0_r. reflexivity.
   Qed.
 End OverStream.
